@@ -1,0 +1,29 @@
+//go:build verif
+
+package datastore
+
+import "github.com/janelia-flyem/dvid/dvid"
+
+// VerifSyncPending reports, under the repo lock, whether sync events are queued for the data
+// instance.  Data.SyncPending reads the subscription table without that lock (it is meant for
+// tests that wait after a request has returned); a verification harness polls this variant while
+// requests and asynchronous instance deletions are still running.
+func VerifSyncPending(d dvid.Data) bool {
+	if manager == nil {
+		return false
+	}
+	r, err := manager.repoFromUUID(d.RootUUID())
+	if err != nil {
+		return false
+	}
+	r.RLock()
+	defer r.RUnlock()
+	for _, subs := range r.subs {
+		for _, sub := range subs {
+			if sub.Notify == d.DataUUID() && len(sub.Ch) > 0 {
+				return true
+			}
+		}
+	}
+	return false
+}
